@@ -1,6 +1,7 @@
 package verifbench
 
 import (
+	"net/http"
 	"context"
 	"encoding/json"
 	"flag"
@@ -292,8 +293,10 @@ func runC20grpc(viaRegistry bool, c *grpcCase) (string, string, *Outcome, error)
 		return "", "", out, nil
 	}
 	cv := out.Client
+	// (grpc-go merges header and trailer metadata of a trailers-only answer in map order: values of one
+	// key are compared as multisets here)
 	client := fmt.Sprintf("status=%d outcome=%s err=%s ct=%q codec=%s comp=%s msgs=%s headers=%s trailers=%s problems=%d incomplete=%q",
-		cv.Status, cv.outcome(), errString(cv.Err), cv.ContentType, cv.RespCodec, cv.RespComp, canonAll(cv.Msgs), headerString(cv.Headers), headerString(cv.Trailers), len(cv.Problems), cv.Incomplete)
+		cv.Status, cv.outcome(), errString(cv.Err), cv.ContentType, cv.RespCodec, cv.RespComp, canonAll(cv.Msgs), headerString(sortedValues(cv.Headers)), headerString(sortedValues(cv.Trailers)), len(cv.Problems), cv.Incomplete)
 	obs.mu.Lock()
 	server := strings.Join(obs.notes, "\n")
 	obs.mu.Unlock()
@@ -346,4 +349,15 @@ func checkC20grpc(c *grpcCase) *CheckResult {
 		res.violate("schema_dependent", "c20:backend:grpc_registry", "what the gRPC server received through vanguardgrpc.NewTranscoder differs from by-name registration (%s):\n  by name:  %s\n  registry: %s", what, trimLong(refServer), trimLong(gotServer))
 	}
 	return res
+}
+
+
+func sortedValues(h http.Header) http.Header {
+	out := http.Header{}
+	for k, v := range h {
+		vs := append([]string(nil), v...)
+		sort.Strings(vs)
+		out[k] = vs
+	}
+	return out
 }
